@@ -31,8 +31,10 @@ def _imp():
 
 class _Contour:
     """calculate_design_conditions reads nothing but `.coordinates`"""
-    def __init__(self, coords):
+    def __init__(self, coords, dtype="float"):
         self.coordinates = np.array(coords, dtype=float).reshape(-1, 2)
+        if dtype == "int":      # whole-number coordinates stored in an integer array
+            self.coordinates = self.coordinates.astype(np.int64)
 
 
 # ------------------------------------------------------------------ exact reference (fractions)
@@ -155,6 +157,8 @@ def steps_object(case):
     ty = case.get("steps_type", "list")
     if ty == "tuple":
         return tuple(st)
+    if ty == "iterator":
+        return iter(list(st))
     if ty == "ndarray":
         return np.array(st)          # dtype int64 when every abscissa is an int
     if ty == "range" and len(st) >= 2 and all(isinstance(v, int) for v in st) and st[1] != st[0] \
@@ -165,7 +169,7 @@ def steps_object(case):
 
 
 def run_dc(vu, case):
-    c = _Contour(case["coords"])
+    c = case.get("contour") or _Contour(case["coords"], case.get("coords_dtype", "float"))
     steps = steps_object(case)
     try:
         res = vu.calculate_design_conditions(c, steps=steps, swap_axis=case["swap"])
@@ -273,13 +277,27 @@ def oracle_dc(vu, case, res=None):
                 k, rows[k][0], len(absc), len(rows)), info
     # swap_axis == exchanging the columns (same float operations: compared exactly)
     sw = {"coords": [[y, x] for x, y in case["coords"]], "steps": case["steps"], "swap": not case["swap"],
-          "steps_type": case.get("steps_type", "list")}
+          "steps_type": case.get("steps_type", "list"), "coords_dtype": case.get("coords_dtype", "float")}
     r2 = run_dc(vu, sw)
     if r2 != res:
         return dict(base, clause="swap-axis"), "swap_axis=%r differs from exchanging the coordinate columns" % case["swap"], info
     st = case["steps"]
+    plain = {k: v for k, v in case.items() if k != "contour"}
+    if isinstance(st, list) and 2 <= len(st) <= 6:
+        # every abscissa is treated on its own: any order, duplicates, neighbours make no difference
+        parts = []
+        for v in st:
+            r1 = run_dc(vu, dict(plain, steps=[v], steps_type="list"))
+            parts += r1.get("rows", [("err", r1.get("err"))])
+        if parts != rows:
+            return dict(base, clause="pointwise"), "the result for the list %r is not the concatenation of the results for its single abscissae" % (st,), info
+    if (st is None or isinstance(st, int)) and len(rows) == (10 if st is None else st) and rows:
+        # an int count (or None) is the same as passing the abscissae it stands for
+        r4 = run_dc(vu, dict(plain, steps=[r[0] for r in rows], steps_type="list"))
+        if r4 != res:
+            return dict(base, clause="count-vs-list"), "steps=%r and the explicit list of the abscissae it produced give different design conditions" % (st,), info
     if isinstance(st, list) and (case.get("steps_type", "list") != "list" or any(isinstance(v, int) for v in st)):
-        r3 = run_dc(vu, dict(case, steps=[float(v) for v in st], steps_type="list"))
+        r3 = run_dc(vu, dict(plain, steps=[float(v) for v in st], steps_type="list"))
         if r3 != res:
             return dict(base, clause="steps-type"), "abscissae given as %s of %s give other numbers than the same abscissae as a list of floats" % (
                 case.get("steps_type", "list"), "ints" if all(isinstance(v, int) for v in st) else "ints and floats"), info
@@ -358,19 +376,99 @@ def random_model(rng):
     return v.GlobalHierarchicalModel([d0, d1])
 
 
+def multimodal_model(rng):
+    """second variable jumps at a threshold of the first: the highest-density region falls apart"""
+    import virocon as v
+    t, lo, hi = rng.uniform(1.5, 2.5), rng.uniform(0.2, 0.6), rng.uniform(1.2, 2.0)
+
+    def _step(x, a=lo, b=hi, c=t):
+        return np.where(np.asarray(x) < c, a, b)
+
+    def _const(x, a=rng.uniform(0.05, 0.12)):
+        return a + 0 * np.asarray(x)
+
+    d0 = {"distribution": v.WeibullDistribution(alpha=rng.uniform(2.0, 3.5), beta=rng.uniform(1.8, 3.0), gamma=0.0)}
+    d1 = {"distribution": v.LogNormalDistribution(), "conditional_on": 0,
+          "parameters": {"mu": v.DependenceFunction(_step), "sigma": v.DependenceFunction(_const)}}
+    return v.GlobalHierarchicalModel([d0, d1])
+
+
+REAL_KINDS = ["IFORM", "ISORM", "DirectSampling", "And", "Or", "HDC", "HDC-multi"]
+
+
 def real_contour(ctx, rng, k):
     import virocon as v
-    m = random_model(rng)
-    kind = rng.choice(["IFORM", "ISORM", "DirectSampling"])
+    try:
+        return _real_contour(ctx, rng, k)
+    except Exception as e:  # noqa  (building the contour is not the subject of this property)
+        d = ctx.notes.setdefault("contour_constructions_that_raised", {})
+        d[type(e).__name__] = d.get(type(e).__name__, 0) + 1
+        c = v.IFORMContour(random_model(rng), 0.01, n_points=12)
+        return "IFORM", [[float(x), float(y)] for x, y in c.coordinates], c
+
+
+def _real_contour(ctx, rng, k):
+    """(kind, coordinates, contour object or None): a contour of every class for a random 2-D model"""
+    import virocon as v
+    kind = REAL_KINDS[k % len(REAL_KINDS)] if rng.random() < 0.7 else rng.choice(REAL_KINDS[:3])
+    m = multimodal_model(rng) if kind == "HDC-multi" else random_model(rng)
     alpha = 10 ** rng.uniform(-4, -1)
     if kind == "IFORM":
         c = v.IFORMContour(m, alpha, n_points=rng.choice([7, 12, 30, 60, 180]))
     elif kind == "ISORM":
         c = v.ISORMContour(m, alpha, n_points=rng.choice([7, 12, 30, 60, 180]))
+    elif kind == "HDC":
+        c = v.HighestDensityContour(m, max(alpha, 1e-3), limits=[(0, rng.choice([16, 20])), (0, rng.choice([24, 30]))],
+                                    deltas=[rng.choice([0.5, 0.8]), rng.choice([0.5, 1.0])])
+    elif kind == "HDC-multi":
+        c = v.HighestDensityContour(m, rng.choice([0.05, 0.1, 0.2]), limits=[(0, 8), (0, 12)], deltas=[0.25, 0.25])
     else:
         sample = m.draw_sample(rng.choice([2000, 5000]), random_state=ctx.np_rng(1000 + k))
-        c = v.DirectSamplingContour(m, max(alpha, 0.01), sample=sample, deg_step=rng.choice([5, 10, 20, 30]))
-    return kind, [[float(x), float(y)] for x, y in np.asarray(c.coordinates)]
+        if kind == "DirectSampling":
+            c = v.DirectSamplingContour(m, max(alpha, 0.01), sample=sample, deg_step=rng.choice([5, 10, 20, 30]))
+        elif kind == "And":
+            c = v.AndContour(m, max(alpha, 0.02), deg_step=rng.choice([3, 6, 10]), sample=sample, allowed_error=0.05)
+        else:
+            c = v.OrContour(m, max(alpha, 0.02), deg_step=rng.choice([3, 6, 10]), sample=sample, allowed_error=0.05)
+    co = c.coordinates
+    if isinstance(co, np.ndarray) and co.ndim == 2 and co.dtype != object:
+        return kind, [[float(x), float(y)] for x, y in co], c
+    if isinstance(co, list):
+        # several disconnected regions: `coordinates` is a list of [x-array, y-array] parts, not ONE closed
+        # contour; the function is not defined for it (recorded), each part is used as a polygon of its own
+        try:
+            v.calculate_design_conditions(c)
+            what = "returns"
+        except Exception as e:  # noqa
+            what = type(e).__name__
+        d = ctx.notes.setdefault("multi_region_contours", {})
+        d[what] = d.get(what, 0) + 1
+        part = rng.choice(co)
+        pts = [[float(x), float(y)] for x, y in zip(part[0], part[1])]
+        if len(pts) >= 3:
+            return "HDC-region", pts[:120], None
+    return "IFORM", [[float(x), float(y)] for x, y in v.IFORMContour(random_model(rng), 0.01, n_points=12).coordinates], None
+
+
+def dup_vertices_polygon(rng):
+    """consecutive duplicates (zero-length edges), explicitly repeated first vertex, all of them at once"""
+    pts = star_polygon(rng, n=rng.choice([3, 4, 5, 6, 8, 12]))
+    out = []
+    for p in pts:
+        out.append(list(p))
+        while rng.random() < 0.3:
+            out.append(list(p))
+    if rng.random() < 0.35 and len(out) >= 4:
+        # the polygon comes back to an earlier vertex later on (pinched / figure-eight contour)
+        i = rng.randrange(0, len(out) - 2)
+        j = rng.randrange(i + 2, len(out) + 1)
+        out.insert(j, list(out[i]))
+    r = rng.random()
+    if r < 0.4:
+        out.append(list(out[0]))            # closed explicitly
+    elif r < 0.5:
+        out = [list(out[0])] + out          # first vertex twice
+    return out
 
 
 def gen_steps(rng, coords, swap, vertex_stream):
@@ -386,7 +484,12 @@ def gen_steps(rng, coords, swap, vertex_stream):
     if r < 0.2:
         return None
     if r < 0.45:
-        return rng.choice([1, 2, 3, 5, 7, 10, 20, 25])
+        return rng.choice([1, 2, 3, 5, 7, 10, 20, 25, 0])
+    if r < 0.48:
+        return []
+    if r < 0.56:    # strictly descending / ascending explicit lists over and beyond the extent
+        out = sorted(rng.uniform(lo - 0.2 * w, hi + 0.2 * w) for _ in range(rng.randrange(2, 7)))
+        return out[::-1] if rng.random() < 0.6 else out
     n = rng.randrange(1, 9)
     mode = rng.choice(["inside", "inside", "mixed", "outside", "dup", "edge-band", "edge-band", "integers", "integers"])
     if mode == "edge-band":
@@ -506,19 +609,24 @@ def rectilinear_polygon(rng):
 def gen_dc_case(ctx, rng, k, n_real):
     vertex_stream = False
     forced = None
+    obj = None
     if k < n_real:
-        kind, coords = real_contour(ctx, rng, k)
+        kind, coords, obj = real_contour(ctx, rng, k)
+        if kind in ("HDC", "HDC-region", "And", "Or") and rng.random() < 0.3:
+            vertex_stream = True
     else:
         r = rng.random()
-        if r < 0.12:
+        if r < 0.10:
             kind, coords = "convex", star_polygon(rng, convex=True)
-        elif r < 0.58:
+        elif r < 0.50:
             kind, coords = "star", star_polygon(rng)
-        elif r < 0.70:
+        elif r < 0.60:
+            kind, coords = "dup-vertices", dup_vertices_polygon(rng)
+        elif r < 0.72:
             kind = "tie-closing"
             coords, sw, st = tie_closing_polygon(rng)
             forced = (sw, st)
-        elif r < 0.82:
+        elif r < 0.84:
             kind = "rectilinear"
             coords, sw, st = rectilinear_polygon(rng)
             forced = (sw, st)
@@ -526,18 +634,23 @@ def gen_dc_case(ctx, rng, k, n_real):
         else:
             kind, coords = "star-rounded", star_polygon(rng, n=rng.choice([4, 5, 6, 8, 10]), decimals=rng.choice([0, 1]))
             vertex_stream = rng.random() < 0.7
+    whole = all(float(v).is_integer() for p in coords for v in p)
+    dtype = "int" if (whole and obj is None and rng.random() < 0.5) else "float"
     if forced is not None:
         return {"kind": kind, "coords": coords, "swap": forced[0], "steps": forced[1], "vertex_stream": vertex_stream,
-                "steps_type": "list"}
+                "steps_type": "list", "coords_dtype": dtype}
     swap = rng.random() < 0.4
     if kind in ("IFORM", "ISORM", "DirectSampling") and rng.random() < 0.15:
         vertex_stream = True
-    if kind in ("star", "convex") and rng.random() < 0.5:
+    if kind in ("star", "convex", "dup-vertices") and rng.random() < 0.5:
         # wide polygons, so that whole-number abscissae fall inside the extent
         coords = [[x * 40.0, y * 40.0] for x, y in coords] if max(abs(v) for p in coords for v in p) < 2 else coords
     steps = gen_steps(rng, coords, swap, vertex_stream)
-    return {"kind": kind, "coords": coords, "swap": swap, "steps": steps, "vertex_stream": vertex_stream,
-            "steps_type": rng.choice(["list", "list", "tuple", "ndarray", "range"]) if isinstance(steps, list) else "list"}
+    case = {"kind": kind, "coords": coords, "swap": swap, "steps": steps, "vertex_stream": vertex_stream, "coords_dtype": dtype,
+            "steps_type": rng.choice(["list", "list", "tuple", "ndarray", "range", "iterator"]) if isinstance(steps, list) else "list"}
+    if obj is not None:
+        case["contour"] = obj
+    return case
 
 
 def grid_walk(rng, n):
@@ -656,7 +769,9 @@ def shrink_dc(vu, case, sig):
             return False
         return s is not None and _sigkey(s) == key
 
-    c = dict(case)
+    c = {k: v for k, v in case.items() if k != "contour"}
+    if c.get("steps_type") == "iterator":
+        c["steps_type"] = "list"
     if c["steps"] is None or isinstance(c["steps"], int):
         # make the abscissae explicit when that keeps the failure
         cl, absc, _, _, _ = dc_reference(c)
@@ -779,7 +894,7 @@ def run(ctx):
     ctx.notes["sizes"] = {"polygon_vertices_max": max(len(c["coords"]) for c in dc_cases),
                           "polyline_vertices_max": max(max(len(c["c1"]), len(c["c2"])) for c in ix_cases)}
     for c, r in list(zip(dc_cases, dc_res))[:2]:
-        ctx.sample({"case": {k: (v[:4] if k == "coords" else v) for k, v in c.items()}, "implementation": r if "err" in r else r["rows"][:3]})
+        ctx.sample({"case": {k: (v[:4] if k == "coords" else v) for k, v in c.items() if k != "contour"}, "implementation": r if "err" in r else r["rows"][:3]})
     ctx.sample({"case": ix_cases[0], "implementation": ix_res[0]})
 
     # ---- correspondence: Q instance of the model vs the implementation
@@ -837,7 +952,7 @@ def run(ctx):
             small, s2, msg2 = dc_cases[i], s, msg
         found[_sigkey(s)] = True
         rep = {"function": "calculate_design_conditions", "coords": small["coords"], "steps": small["steps"], "swap": small["swap"],
-               "steps_type": small.get("steps_type", "list")}
+               "steps_type": small.get("steps_type", "list"), "coords_dtype": small.get("coords_dtype", "float")}
         ctx.violation(s2, "calculate_design_conditions(coords=%r, steps=%r, swap_axis=%r): %s" % (
             small["coords"] if len(small["coords"]) <= 8 else "<%d points>" % len(small["coords"]), steps_object(small), small["swap"], msg2), rep)
     order_ix = suspects_ix + [i for i in range(len(ix_cases)) if i not in set(suspects_ix)]
